@@ -356,3 +356,26 @@ def run(M, rep, tier, only=None):
                    technique="must-follow on all abstract paths of Section.create_property (shared with C10.R7)")
     from . import c10
     c10.create_property_assigns(M, rep, R11)
+
+    # ---- R12: looking at something never creates it: no accessor opens a storage group with create=True (a read-only file
+    # must be readable through every accessor, and reading must not change what a reopen shows)
+    R12 = rep.rule("C02.R12", "accessors never create storage groups", floor=100,
+                   technique="argument of every group-opening event on all abstract paths of every getter")
+    for cn, name, tb, f in surface(M, ENTITY_CLASSES, ("getters",)):
+        key = api_key(cn, name, tb)
+        bad = None
+        try:
+            paths = ctx.paths(f, cn, max_paths=4000)
+        except Exception as e:
+            if type(e).__name__ != "Budget":
+                raise
+            continue
+        for p in paths:
+            for e in p.events:
+                if e.kind == "layer" and e.op.split(".")[-1] in ("open_group", "__init__"):
+                    cr = e.kw.get("create")
+                    if cr is not None and not (is_const(cr) and not cr.t[1]):
+                        bad = (p, e)
+        rep.check(R12, key, bad is None, "%s opens a storage group with create=True (%s): merely looking creates it -- refused on a "
+                  "read-only file, and an empty group appears in a writable one" % (key, ctx.fx.key(bad[1]) if bad else ""),
+                  site=bad[1].site if bad else None, detail=describe_path(bad[0]) if bad else None)
